@@ -1540,3 +1540,63 @@ PROPS["C06"] = {
                     "every operation is atomic (failing message: branch dropped; reverted frame: journal) — atomicity itself is C04",
                     "the EVM module account never signs or calls (Op.WF)"],
 }
+
+
+# ------------------------------------------------------------------------------------------------ C03 EVM equivalence with go-ethereum
+def oracle_c03(run, ops, impl):
+    out = []
+    if run["model"] != "evmdiff":
+        for i, (op, ob) in enumerate(zip(ops, impl)):
+            if ob == "panic" and not (op.split()[1] in ("revert", "subRefund")):
+                out.append(V("C03:panic-in-statedb-call", {"line": i + 1, "op": op}))
+        return out
+    for i, (op, ob) in enumerate(zip(ops, impl)):
+        try:
+            n, rest = ob[2:].split(" G:", 1)
+            g, post = rest.split(" POST:", 1)
+        except ValueError:
+            out.append(V("C03:unparsable-observation", {"line": i + 1, "obs": ob[:200]}))
+            continue
+        if n == "panic":
+            out.append(V("C03:panic-in-nibiru-state-transition", {"line": i + 1, "op": op}))
+            continue
+        if n != g:
+            nf, gf = n.split("/"), g.split("/")
+            what = "result"
+            if len(nf) == 4 and len(gf) == 4:
+                names = ["vm-error", "return-data", "gas-used", "logs"]
+                what = ",".join(names[j] for j in range(4) if nf[j] != gf[j])
+            out.append(V("C03:message-result-differs-from-go-ethereum:%s" % what, {"line": i + 1, "op": op, "nibiru": n[:300], "go_ethereum": g[:300]}))
+        if post != "=":
+            kinds = sorted({d.split("(")[0] for d in post.split(",")})
+            out.append(V("C03:post-state-differs-from-go-ethereum:%s" % "+".join(kinds), {"line": i + 1, "op": op, "differences": post[:400]}))
+    return out
+
+
+PROPS["C03"] = {
+    "modules": ["NibiruProofs.C03"],
+    "prefix": "C03_",
+    "runs": [{"model": "gspecnib", "n_quick": 150, "n_thorough": 3000, "nontrivial": r"^P:"},
+             {"model": "gspecgeth", "n_quick": 150, "n_thorough": 3000, "nontrivial": r"^P:"},
+             {"model": "evmdiff", "n_quick": 80, "n_thorough": 1500, "no_model": True, "per_line": True, "nontrivial": r"^N:-/"}],
+    "oracle": oracle_c03,
+    "rule": "interface level (two runs, identical generated call sequences): several transactions per history of vm.StateDB calls — "
+            "reads, balance/nonce/code/storage writes, CreateAccount, Suicide, logs, AddRefund/SubRefund, access-list additions, nested "
+            "Snapshot/RevertToSnapshot with valid and invalid ids, end-of-transaction commit — on Nibiru's real StateDB over the real "
+            "keeper (gspecnib) and on upstream go-ethereum's real core/state.StateDB (gspecgeth); both must equal the reference "
+            "semantics GethSpec line by line. The generator stays inside what the interpreter can do (storage writes only to accounts "
+            "with code or a nonce, CreateAccount only where evm.create would not report a collision, SELFDESTRUCT only of non-empty "
+            "accounts, whole-unibi amounts). EVM level (evmdiff, oracle only): generated multi-frame bytecode programs (SSTORE/SLOAD "
+            "with refunds, LOGn, nested CALL/CALLCODE/DELEGATECALL/STATICCALL to self and to a sibling contract with limited gas and "
+            "value, CREATE/CREATE2 of children that return/revert/self-destruct/are invalid, SELFDESTRUCT, transfers, frames ending in "
+            "STOP/RETURN/REVERT/INVALID, tight tx gas, legacy and access-list txs) executed as multi-transaction histories through "
+            "Nibiru's msg server and through go-ethereum's core.ApplyMessage on go-ethereum's state, same interpreter and block "
+            "context; per tx VM error, return data, gas used after refunds, logs; after every tx nonce/code/balance/storage of "
+            "every account either side could touch. non-trivial = a history committed / a tx executed without VM error",
+    "assumptions": ["the interpreter (core/vm of the fork) is the same code on both sides and is trusted",
+                    "absent and empty accounts are identified between transactions (go-ethereum deletes touched empty accounts, Nibiru "
+                    "persists them); the interface-level generator avoids calls the interpreter cannot make (documented in DESIGN.md)",
+                    "the full simulation NibiruModel.StateDB ~ GethSpec is NOT proved (partial): proved are the spec's snapshot theorem, the "
+                    "per-entry journal inverses and the refund arithmetic; observational equality rests on the three-way correspondence",
+                    "sender / coinbase balances are not compared at the EVM level (fee bookkeeping differs by construction: C05)"],
+}
